@@ -30,7 +30,7 @@ META = {
                    'enumerated (pairs sampled), and for threaded programs every single line-level pre-emption placement '
                    '(capped) plus seeded random schedules; the oracle is an undecorated twin with object-identity and '
                    'exactly-once journals.  Programs themselves are sampled, so this is enumeration of fault/schedule '
-                   'placements over sampled workloads, not a proof.'),
+                   'placements over sampled workloads, not a proof. Also: two placed pre-emptions (bound 2) over eagerly started fire-and-forget workers, DEBUG logging switched on, recording switched off from inside an intercepted body, and unusual call shapes (no arguments, keywords only, unhashable first arguments or classes) with recording disabled.'),
     'level_note': ('Trusted: the generated-service interpreter and environment journal (engines/recplay.py), the baton '
                    'scheduler (simkit/sim.py, determinism self-tested), CPython line-event semantics. Assumes no nested or '
                    'concurrent operations on one recorder; line granularity of pre-emption.'),
